@@ -17,17 +17,25 @@ seam checks through the trace hook (they localise a failure and tie the stage mo
      their positions (keys seam-select, seam-columns), and the Lean precondition `rawPreconditionB` itself (mkInst succeeds,
      trusted het genotypes, biallelic truth, every read an error-free copy) holds on the traced solver input with the
      generator's truth (`c02.errfree`, key seam-errfree)
+  A0 reads of a sample (round 8): every candidate read of sample s in the trace is, by the generator's bookkeeping per input
+     file, a read of s (key seam-read-sample); in-process: the real MultiBamReader.fetch(contig, sample) of every run's files
+     == the generator's reads of that sample (key fetch-read-sample) == Lean `C02Bam.fetch` (op c02.fetch;
+     Props.C02.fetched_reads_are_the_samples, fetch_none_iff, fetched_reads_disjoint)
 """
 import json, os, shutil
 
 from harness.gen import sim
 from harness.gen import c02_forms as FORMS
+from harness.gen import c02_layout as LAYOUT
 
 RULE = ("generated phasing scenarios with ground truth: 1-2 contigs, 3-14 well separated variants (SNV, MNP, "
         "insertion, deletion), 1-3 samples with own true haplotypes, error-free single and paired reads, depth 2-40 "
         "(above the internal cap of 15), input genotypes in every textual form (0/1, 1/0, 0|1, 1|0 with/without PS, HP values, "
         "mixed within a phase set), options --tag PS/HP, --only-snvs, --sample subsets, --ignore-read-groups "
-        "(single sample). Non-trivial = at least one phase set with >= 2 variants in the output; distinct = distinct "
+        "(single sample); alignment-file layouts (1-6 files: per-sample files, several files per sample, mixed files; 1-3 read "
+        "groups per file and sample; read-group IDs numbered per file so that one ID names different samples in different "
+        "files, shared pool, unique, legacy; header-only decoy @RG lines; read names unique or numbered per file), one CLI "
+        "process or 2-3 runs in one interpreter, plus in-process MultiBamReader.fetch queries per sample. Non-trivial = at least one phase set with >= 2 variants in the output; distinct = distinct "
         "(seed-derived) scenario")
 ASSUMPTIONS = ["'well separated' = consecutive variants at least 25 bp apart (beyond the 10 bp re-alignment overhang)",
                "htslib/pysam used to write inputs and parse outputs"]
@@ -158,6 +166,7 @@ def run(ctx):
         cases = [c for _, c in ctx.corpus()] + cases
     model_reqs, model_meta = [], []
     glue_reqs, glue_meta = [], []
+    fetch_reqs, fetch_meta = [], []
     try:
         for case in cases:
             import random
@@ -194,6 +203,7 @@ def run(ctx):
             shutil.rmtree(d, ignore_errors=True)
             # optionally hand the reads over as TWO alignment files that reuse the same read names (two sequencing
             # runs numbering their reads alike): whatshap must keep same-named reads of different files apart
+            reads0 = [dict(r) for r in sc.reads]    # the reads under their scenario-wide unique names (mates share one), for LAYOUT
             two_files = r2.random() < 0.3
             file_of = {}
             if two_files:
@@ -255,125 +265,185 @@ def run(ctx):
                     bp = os.path.join(d, f"in{f}.bam")
                     sim.write_bam(bp, sc.contigs, [r for r in sc.reads if file_of[id(r)] == f], sc.read_groups())
                     bams.append(bp)
-            ctx.dist("alignment_files", len(bams))
-            args = ["phase", "-r", fa, "-o", os.path.join(d, "out.vcf")]
             tag = r2.choice(["PS", "HP"])
-            args += ["--tag", tag]
+            opts = ["--tag", tag]
             only_snvs = r2.random() < (0.6 if prephased and len(kinds) > 1 else 0.2)
             if only_snvs:
-                args += ["--only-snvs"]
+                opts += ["--only-snvs"]
             target = list(sc.samples)
             if nsamp > 1 and r2.random() < 0.4:
                 target = r2.sample(sc.samples, r2.randrange(1, nsamp))
                 for s in target:
-                    args += ["--sample", s]
-            args += [vcf] + bams
-            rc, out, err, trace = sim.whatshap(args, ctx.overlay, trace=os.path.join(d, "trace.jsonl"))
-            ctx.evaluated()
-            desc = {**case, "args": args[1:], "samples": sc.samples, "kinds": list(kinds), "deep": deep, "gt_forms": gt_forms}
-            if rc != 0:
-                ctx.fail("whatshap phase failed on a well-formed error-free scenario: " + err[-400:], desc, key="phase-crash")
-                continue
-            hdr, samples, recs = sim.read_vcf(os.path.join(d, "out.vcf"))
-            ctx.dist("samples", nsamp); ctx.dist("tag", tag); ctx.dist("kinds", "+".join(kinds)); ctx.dist("deep", deep)
-            nontrivial = False
-            for si, s in enumerate(samples):
-                ph = sim.decode_phase(recs, si)
-                if s not in target:
-                    if ph and not input_marked:
-                        ctx.fail(f"sample {s} was not selected but is phased in the output", desc, key="unselected-phased")
-                    continue   # an unselected sample keeps whatever its input calls carried (C04): nothing to compare
-                sets = {}
-                for (c, p), (ps, al) in ph.items():
-                    sets.setdefault((c, ps), []).append((p, al))
-                for (c, ps), items in sets.items():
-                    truth = sc.truth(s, c)
-                    same = all(truth[p] == tuple(al) for p, al in items)
-                    swap = all(truth[p] == tuple(al)[::-1] for p, al in items)
-                    if len(items) >= 2:
-                        nontrivial = True
-                    ctx.dist("phase_set_size", min(len(items), 6))
-                    if not (same or swap):
-                        ctx.fail(f"sample {s} contig {c} phase set {ps}: phased alleles are not the true haplotypes up to swap: "
-                                 + str([(p, al, truth[p]) for p, al in sorted(items)][:8]), desc, key="phase-not-truth")
-                    if only_snvs:
-                        kinds_at = {v.pos: v.kind for v in sc.variants[c]}
-                        for p, _ in items:
-                            if kinds_at[p] != "snv":
-                                ctx.fail(f"--only-snvs but {kinds_at[p]} at {c}:{p} was phased", desc, key="only-snvs")
-            if nontrivial:
-                ctx.nontrivial(case["scenario_seed"])
-            # ---- seam checks on the trace
-            truth_of_read = {}
-            for r in sc.reads:
-                truth_of_read.setdefault((file_of.get(id(r), 0), r["name"]), (r["sample"], r["hap"]))
-            for tr in trace:
-                chrom = tr["chrom"] if "chrom" in tr else tr["chromosome"]
-                posidx = {v.pos: i for i, v in enumerate(sc.variants[chrom])}
-                for rd in tr["all_reads"]:
-                    if (rd["source_id"], rd["name"]) not in truth_of_read:
-                        ctx.fail(f"seam A: the solver was given a read {rd['name']!r} attributed to input file {rd['source_id']}, "
-                                 f"but that file holds no read of this name (reads of different files mixed up)", desc,
-                                 key="seam-read-identity")
+                    opts += ["--sample", s]
+            # ---- how the reads reach whatshap (round 8; own random stream, the scenarios themselves are unchanged): per-sample
+            # files, several files per sample, several read groups per sample, read-group IDs that name different samples in
+            # different files, decoy header lines; and several runs of the same scenario in ONE interpreter
+            r4 = random.Random(case["scenario_seed"] ^ 0xC02B)
+            legacy_hdr = [list(x) for x in sc.read_groups()]
+            runs = [{"dir": d, "bams": bams, "file_of": file_of, "name_of": {}, "rg_of": {}, "layout": None,
+                     "headers": [legacy_hdr for _ in bams]}]
+            inproc = False
+            if not two_files and r4.random() < 0.6:
+                inproc = r4.random() < 0.35
+                runs = []
+                for k in range(r4.choice([2, 2, 3]) if inproc else 1):
+                    if inproc and r4.random() < 0.25:
+                        runs.append({"dir": os.path.join(d, f"L{k}"), "bams": [bam], "file_of": {}, "name_of": {}, "rg_of": {},
+                                     "headers": [legacy_hdr],
+                                     "layout": {"mode": "scenario file", "rg_ids": "legacy", "names": "unique", "colliding_ids": []}})
                         continue
-                    s, h = truth_of_read[(rd["source_id"], rd["name"])]
-                    hv = sc.haps[(s, chrom)][h]
-                    for pos, al, q in rd["variants"]:
-                        if hv[posidx[pos]] != al:
-                            ctx.fail(f"seam A: read {rd['name']} (error-free copy of haplotype {h} of {s}) was given allele {al} "
-                                     f"at {chrom}:{pos}, its haplotype carries {hv[posidx[pos]]}", desc, key="seam-allele")
-                for s, cand in tr["candidates"].items():
-                    names = {(r["name"], r["source_id"]) for r in cand["reads"]}
-                    for r in cand["selected"]:
-                        if (r["name"], r["source_id"]) not in names:
-                            ctx.disagree("seam B: selected read not among candidates", desc, r["name"], None)
-                # ---- seams A -> B -> C as the Lean composition states them (Props.C02.pipeline_truth_from_raw_reads):
-                # B: selection keeps candidates UNCHANGED (model `selectReads` on the candidates' variants and the indices of
-                #    the kept reads == the traced selected reads), every kept read has >= 2 variants, the solver's read set is
-                #    exactly the kept reads of the family, its columns are exactly their positions
-                fam = tr["family"]
-                kept = []
-                for s in fam:
-                    cand = tr["candidates"][s]
-                    index = {}
-                    for i, r in enumerate(cand["reads"]):
-                        index.setdefault((r["name"], r["source_id"]), i)
-                    sel = [index.get((r["name"], r["source_id"])) for r in cand["selected"]]
-                    if None not in sel:
-                        glue_reqs.append({"op": "c02.select", "cands": [{"ind": 0, "variants": [list(v) for v in r["variants"]]} for r in cand["reads"]],
-                                          "sel": sel})
-                        glue_meta.append((desc, ("select", [[list(v) for v in r["variants"]] for r in cand["selected"]], s)))
-                    for r in cand["selected"]:
-                        if len(r["variants"]) < 2:
-                            ctx.fail(f"seam B: read {r['name']} with {len(r['variants'])} variant(s) was handed on by read selection", desc, key="seam-select")
-                        kept.append((r["name"], r["source_id"], r["sample_id"], json.dumps(r["variants"])))
-                solver_reads = [(r["name"], r["source_id"], r["sample_id"], json.dumps(r["variants"])) for r in tr["all_reads"]]
-                if sorted(kept) != sorted(solver_reads):
-                    ctx.fail("seam B/C: the solver's read set is not the set of reads kept by read selection: "
-                             + str(sorted(set(kept) ^ set(solver_reads))[:3]), desc, key="seam-select")
-                want_pos = sorted({v[0] for r in tr["all_reads"] for v in r["variants"]})
-                if list(tr["accessible_positions"]) != want_pos:
-                    ctx.fail(f"seam C: the solver's columns {tr['accessible_positions'][:8]}… are not the positions of its reads {want_pos[:8]}…",
-                             desc, key="seam-columns")
-                # A+B+C: the precondition of the solver theorems, evaluated by the Lean definition itself on the traced solver
-                #        input with the generator's truth (sound by Props.C02.checked_precondition_sound)
-                if len(fam) == 1 and all((rd["source_id"], rd["name"]) in truth_of_read for rd in tr["all_reads"]):
-                    s0 = fam[0]
-                    h0 = sc.haps[(s0, chrom)][0]
-                    truth_list = [[v.pos, h0[i]] for i, v in enumerate(sc.variants[chrom])]
-                    src_list = [truth_of_read[(rd["source_id"], rd["name"])][1] == 1 for rd in tr["all_reads"]]
-                    glue_reqs.append({"op": "c02.errfree", "raw": trace_to_raw(tr), "truth": truth_list, "src": src_list})
-                    glue_meta.append((desc, ("errfree", None, s0)))
-                if tr["cost"] != 0:
-                    ctx.disagree("seam C: solver cost for error-free reads", desc, tr["cost"], 0)
-                raw = trace_to_raw(tr)
-                inst = trace_to_inst(tr)
-                if inst is not None:
-                    # the model gets the solver's real input (positions + ReadSet); Lean's `mkInst` (model of
-                    # ColumnIterator) makes the column instance; the Python conversion is kept as a cross-check
-                    model_reqs.append({"op": "c01.mkinst", "raw": raw}); model_meta.append((desc, ("mkinst", inst)))
-                    model_reqs.append({"op": "c01.cost", "raw": raw}); model_meta.append((desc, ("cost", tr["cost"])))
-                ctx.validated()
+                    files, place, info = LAYOUT.gen_layout(r4, sc.samples, reads0)
+                    dk = os.path.join(d, f"L{k}")
+                    paths = LAYOUT.write_layout(dk, sc.contigs, reads0, files, place)
+                    runs.append({"dir": dk, "bams": paths, "file_of": {id(r): pl[0] for r, pl in zip(sc.reads, place)},
+                                 "name_of": {id(r): pl[2] for r, pl in zip(sc.reads, place)},
+                                 "rg_of": {id(r): pl[1] for r, pl in zip(sc.reads, place)}, "headers": info["files"], "layout": info})
+                if nsamp == 1 and r4.random() < 0.3:
+                    opts += ["--ignore-read-groups"]
+            for run_ in runs:
+                os.makedirs(run_["dir"], exist_ok=True)
+                run_["args"] = ["phase", "-r", fa, "-o", os.path.join(run_["dir"], "out.vcf")] + opts + [vcf] + run_["bams"]
+                run_["trace"] = os.path.join(run_["dir"], "trace.jsonl")
+                ctx.dist("alignment_files", len(run_["bams"]))
+                if run_["layout"]:
+                    ctx.dist("layout", run_["layout"]["mode"]); ctx.dist("rg_ids", run_["layout"]["rg_ids"])
+                    ctx.dist("read_names", run_["layout"]["names"])
+                    ctx.dist("rg_id_names_several_samples", bool(run_["layout"]["colliding_ids"]))
+            ctx.dist("process", f"{len(runs)} runs in one interpreter" if inproc else "one CLI process")
+            if inproc:
+                results = LAYOUT.run_inprocess([{"args": x["args"], "trace": x["trace"]} for x in runs], ctx.overlay, wd)
+            else:
+                rc, out, err, trace = sim.whatshap(runs[0]["args"], ctx.overlay, trace=runs[0]["trace"])
+                results = [(rc, err, trace)]
+            for ri, (run_, (rc, err, trace)) in enumerate(zip(runs, results)):
+              file_of, name_of, args = run_["file_of"], run_["name_of"], run_["args"]
+              ctx.evaluated()
+              desc = {**case, "args": args[1:], "samples": sc.samples, "kinds": list(kinds), "deep": deep, "gt_forms": gt_forms}
+              if run_["layout"]:
+                  desc["layout"] = run_["layout"]
+              if inproc:
+                  desc["in_process_run"] = f"{ri + 1} of {len(runs)} in one interpreter"
+              if rc != 0:
+                  ctx.fail("whatshap phase failed on a well-formed error-free scenario: " + err[-400:], desc, key="phase-crash")
+                  continue
+              hdr, samples, recs = sim.read_vcf(os.path.join(run_["dir"], "out.vcf"))
+              ctx.dist("samples", nsamp); ctx.dist("tag", tag); ctx.dist("kinds", "+".join(kinds)); ctx.dist("deep", deep)
+              nontrivial = False
+              for si, s in enumerate(samples):
+                  ph = sim.decode_phase(recs, si)
+                  if s not in target:
+                      if ph and not input_marked:
+                          ctx.fail(f"sample {s} was not selected but is phased in the output", desc, key="unselected-phased")
+                      continue   # an unselected sample keeps whatever its input calls carried (C04): nothing to compare
+                  sets = {}
+                  for (c, p), (ps, al) in ph.items():
+                      sets.setdefault((c, ps), []).append((p, al))
+                  for (c, ps), items in sets.items():
+                      truth = sc.truth(s, c)
+                      same = all(truth[p] == tuple(al) for p, al in items)
+                      swap = all(truth[p] == tuple(al)[::-1] for p, al in items)
+                      if len(items) >= 2:
+                          nontrivial = True
+                      ctx.dist("phase_set_size", min(len(items), 6))
+                      if not (same or swap):
+                          ctx.fail(f"sample {s} contig {c} phase set {ps}: phased alleles are not the true haplotypes up to swap: "
+                                   + str([(p, al, truth[p]) for p, al in sorted(items)][:8]), desc, key="phase-not-truth")
+                      if only_snvs:
+                          kinds_at = {v.pos: v.kind for v in sc.variants[c]}
+                          for p, _ in items:
+                              if kinds_at[p] != "snv":
+                                  ctx.fail(f"--only-snvs but {kinds_at[p]} at {c}:{p} was phased", desc, key="only-snvs")
+              if nontrivial:
+                  ctx.nontrivial(case["scenario_seed"])
+              # ---- seam checks on the trace
+              truth_of_read = {}
+              for r in sc.reads:
+                  truth_of_read.setdefault((file_of.get(id(r), 0), name_of.get(id(r), r["name"])), (r["sample"], r["hap"]))
+              for tr in trace:
+                  chrom = tr["chrom"] if "chrom" in tr else tr["chromosome"]
+                  posidx = {v.pos: i for i, v in enumerate(sc.variants[chrom])}
+                  for rd in tr["all_reads"]:
+                      if (rd["source_id"], rd["name"]) not in truth_of_read:
+                          ctx.fail(f"seam A: the solver was given a read {rd['name']!r} attributed to input file {rd['source_id']}, "
+                                   f"but that file holds no read of this name (reads of different files mixed up)", desc,
+                                   key="seam-read-identity")
+                          continue
+                      s, h = truth_of_read[(rd["source_id"], rd["name"])]
+                      hv = sc.haps[(s, chrom)][h]
+                      for pos, al, q in rd["variants"]:
+                          if hv[posidx[pos]] != al:
+                              ctx.fail(f"seam A: read {rd['name']} (error-free copy of haplotype {h} of {s}) was given allele {al} "
+                                       f"at {chrom}:{pos}, its haplotype carries {hv[posidx[pos]]}", desc, key="seam-allele")
+                  for s, cand in tr["candidates"].items():
+                      # seam A0 (read -> sample): a read belongs to the sample named by the @RG line of ITS OWN file whose ID is
+                      # the read's RG tag; the generator knows whose haplotype every read of every file copies
+                      for r in cand["reads"]:
+                          who = truth_of_read.get((r["source_id"], r["name"]))
+                          if who is not None and who[0] != s:
+                              ctx.fail(f"seam A0: read {r['name']!r} of input file {r['source_id']} is a copy of haplotype {who[1]} of sample "
+                                       f"{who[0]} (its RG tag names a read group of {who[0]} in that file's header) but was used as a "
+                                       f"read of sample {s}", desc, key="seam-read-sample")
+                              break
+                      names = {(r["name"], r["source_id"]) for r in cand["reads"]}
+                      for r in cand["selected"]:
+                          if (r["name"], r["source_id"]) not in names:
+                              ctx.disagree("seam B: selected read not among candidates", desc, r["name"], None)
+                  # ---- seams A -> B -> C as the Lean composition states them (Props.C02.pipeline_truth_from_raw_reads):
+                  # B: selection keeps candidates UNCHANGED (model `selectReads` on the candidates' variants and the indices of
+                  #    the kept reads == the traced selected reads), every kept read has >= 2 variants, the solver's read set is
+                  #    exactly the kept reads of the family, its columns are exactly their positions
+                  fam = tr["family"]
+                  kept = []
+                  for s in fam:
+                      cand = tr["candidates"][s]
+                      index = {}
+                      for i, r in enumerate(cand["reads"]):
+                          index.setdefault((r["name"], r["source_id"]), i)
+                      sel = [index.get((r["name"], r["source_id"])) for r in cand["selected"]]
+                      if None not in sel:
+                          glue_reqs.append({"op": "c02.select", "cands": [{"ind": 0, "variants": [list(v) for v in r["variants"]]} for r in cand["reads"]],
+                                            "sel": sel})
+                          glue_meta.append((desc, ("select", [[list(v) for v in r["variants"]] for r in cand["selected"]], s)))
+                      for r in cand["selected"]:
+                          if len(r["variants"]) < 2:
+                              ctx.fail(f"seam B: read {r['name']} with {len(r['variants'])} variant(s) was handed on by read selection", desc, key="seam-select")
+                          kept.append((r["name"], r["source_id"], r["sample_id"], json.dumps(r["variants"])))
+                  solver_reads = [(r["name"], r["source_id"], r["sample_id"], json.dumps(r["variants"])) for r in tr["all_reads"]]
+                  if sorted(kept) != sorted(solver_reads):
+                      ctx.fail("seam B/C: the solver's read set is not the set of reads kept by read selection: "
+                               + str(sorted(set(kept) ^ set(solver_reads))[:3]), desc, key="seam-select")
+                  want_pos = sorted({v[0] for r in tr["all_reads"] for v in r["variants"]})
+                  if list(tr["accessible_positions"]) != want_pos:
+                      ctx.fail(f"seam C: the solver's columns {tr['accessible_positions'][:8]}… are not the positions of its reads {want_pos[:8]}…",
+                               desc, key="seam-columns")
+                  # A+B+C: the precondition of the solver theorems, evaluated by the Lean definition itself on the traced solver
+                  #        input with the generator's truth (sound by Props.C02.checked_precondition_sound)
+                  if len(fam) == 1 and all((rd["source_id"], rd["name"]) in truth_of_read for rd in tr["all_reads"]):
+                      s0 = fam[0]
+                      h0 = sc.haps[(s0, chrom)][0]
+                      truth_list = [[v.pos, h0[i]] for i, v in enumerate(sc.variants[chrom])]
+                      src_list = [truth_of_read[(rd["source_id"], rd["name"])][1] == 1 for rd in tr["all_reads"]]
+                      glue_reqs.append({"op": "c02.errfree", "raw": trace_to_raw(tr), "truth": truth_list, "src": src_list})
+                      glue_meta.append((desc, ("errfree", None, s0)))
+                  if tr["cost"] != 0:
+                      ctx.disagree("seam C: solver cost for error-free reads", desc, tr["cost"], 0)
+                  raw = trace_to_raw(tr)
+                  inst = trace_to_inst(tr)
+                  if inst is not None:
+                      # the model gets the solver's real input (positions + ReadSet); Lean's `mkInst` (model of
+                      # ColumnIterator) makes the column instance; the Python conversion is kept as a cross-check
+                      model_reqs.append({"op": "c01.mkinst", "raw": raw}); model_meta.append((desc, ("mkinst", inst)))
+                      model_reqs.append({"op": "c01.cost", "raw": raw}); model_meta.append((desc, ("cost", tr["cost"])))
+                  ctx.validated()
+            # ---- in-process stream (this interpreter opens the readers of every run of every case, plus those of one more
+            # layout of the same reads, all alive at once): the real MultiBamReader's reads of each sample == the generator's
+            # reads of that sample, per file (oracle), == Lean `C02Bam.fetch` (Props.C02.fetched_reads_are_the_samples /
+            # fetch_none_iff)
+            files, place, info = LAYOUT.gen_layout(r4, sc.samples, reads0)
+            extra = {"bams": LAYOUT.write_layout(os.path.join(d, "LX"), sc.contigs, reads0, files, place),
+                     "file_of": {id(r): pl[0] for r, pl in zip(sc.reads, place)}, "name_of": {id(r): pl[2] for r, pl in zip(sc.reads, place)},
+                     "rg_of": {id(r): pl[1] for r, pl in zip(sc.reads, place)}, "headers": info["files"], "layout": info}
+            fetch_stream(ctx, sc, [extra] + runs, case, fetch_reqs, fetch_meta)
             if len(ctx.samples) < 2:
                 ctx.sample({"case": desc, "n_records": len(recs), "n_trace": len(trace)})
     finally:
@@ -387,6 +457,11 @@ def run(ctx):
                              expect, ans)
         elif ans.get("cost") != expect:
             ctx.disagree("c01.cost on traced pipeline instance", desc, expect, ans.get("cost", ans))
+    for (desc, what, expect), ans in zip(fetch_meta, (ctx.model.ask_many([r])[0] for r in fetch_reqs)):
+        got = ans.get("reads", ans) if isinstance(ans, dict) else ans
+        got = sorted([list(x) for x in got]) if isinstance(got, list) else got
+        if got != expect:
+            ctx.disagree("c02.fetch (reads of a sample: MultiBamReader.fetch vs Lean C02Bam.fetch) " + what, desc, expect, got)
     # glue requests are small (answers: a few booleans / the kept reads): one at a time as well, for the same reason
     ctx.dist("glue_requests", min(len(glue_reqs), 400) // 50 * 50)
     for (desc, (what, expect, sample)), ans in zip(glue_meta, (ctx.model.ask_many([r])[0] for r in glue_reqs)):
@@ -398,6 +473,49 @@ def run(ctx):
         elif not (isinstance(ans, dict) and ans.get("ok") is True):
             ctx.fail(f"seams A-C: the traced solver input of {sample} does not satisfy the precondition of the solver theorems "
                      f"(Lean rawPreconditionB: {ans})", desc, key="seam-errfree")
+
+
+def fetch_stream(ctx, sc, runs, case, reqs, meta):
+    """open the alignment files of several runs with the real `MultiBamReader` IN THIS PROCESS (all readers alive at once) and
+    ask each, per contig, for the reads of every sample of the scenario and of two names no read belongs to"""
+    import logging
+    from whatshap.bam import MultiBamReader, SampleNotFoundError
+    logging.getLogger("whatshap.bam").setLevel(logging.ERROR)    # "read group without SM" warnings of the decoy header lines
+    readers = []
+    try:
+        for run_ in runs:
+            readers.append(MultiBamReader(run_["bams"]))
+        for k, (run_, reader) in enumerate(zip(runs, readers)):
+            file_of, name_of, rg_of, headers = run_["file_of"], run_["name_of"], run_["rg_of"], run_["headers"]
+            desc = {**case, "bams": run_["bams"], "headers": headers, "samples": sc.samples, "layout": run_["layout"],
+                    "stream": f"in-process MultiBamReader.fetch, reader {k + 1} of {len(runs)} of this case"}
+            for c in sc.contigs:
+                mine = [(file_of.get(id(r), 0), name_of.get(id(r), r["name"]), rg_of.get(id(r), r["rg"]), r["sample"])
+                        for r in sc.reads if r["chrom"] == c]
+                files = [{"rgs": [list(g) for g in headers[f]], "alns": [[nm, rg] for ff, nm, rg, _ in mine if ff == f]}
+                         for f in range(len(headers))]
+                for s in list(sc.samples) + ["ghost", "nobody"]:
+                    try:
+                        impl = sorted([a.source_id, a.bam_alignment.query_name] for a in reader.fetch(c, s))
+                    except SampleNotFoundError:
+                        impl = None
+                    named = any(g[1] == s for h in headers for g in h)
+                    want = sorted([f, nm] for f, nm, _, sm in mine if sm == s) if named else None
+                    ctx.dist("fetch_query", "sample not named by any header" if not named else
+                             ("named by a header, no reads" if not want else "sample with reads"))
+                    if impl != want:
+                        def show(x):
+                            return "SampleNotFoundError" if x is None else f"{len(x)} reads"
+                        foreign = [x for x in (impl or []) if x not in (want or [])][:3]
+                        missing = [x for x in (want or []) if x not in (impl or [])][:3]
+                        ctx.fail(f"reads of sample {s} on {c}: MultiBamReader.fetch gave {show(impl)}, the files hold {show(want)} of "
+                                 f"that sample; [file, name] foreign: {foreign} missing: {missing} (@RG [ID, SM] per file: {headers})",
+                                 desc, key="fetch-read-sample")
+                    reqs.append({"op": "c02.fetch", "files": files, "sample": s})
+                    meta.append((desc, f"{c} {s}", impl))
+    finally:
+        for reader in readers:
+            reader.close()
 
 
 def trace_to_raw(tr):
